@@ -55,6 +55,19 @@ def max_instances():
     out.append(("2.1 identity(custom empty containers)", "2.1", "Identity", {"name": "n", "allow_custom": True, "x_opts": {"tags": [], "map": {}, "zero": 0, "off": False, "n": None},
                                                                             "x_list": [], "x_dict": {}}))
     out.append(("2.0 campaign(custom empty containers)", "2.0", "Campaign", {"name": "n", "allow_custom": True, "x_opts": {"tags": [], "deep": {"er": []}}, "x_list": []}))
+    # the SAME Python container standing at two places of the caller's data (a template used twice): two places of the object, each addressable on its own
+    ph = {"kill_chain_name": "k", "phase_name": "p"}
+    hs = {"MD5": "d41d8cd98f00b204e9800998ecf8427e"}
+    ref = {"source_name": "s", "external_id": "1", "hashes": hs}
+    ref2 = {"source_name": "t", "url": "http://x.example/", "hashes": hs}
+    txt = {"name": "n", "description": ""}
+    shared_list = ["a", "b"]
+    out.append(("2.1 attack-pattern(shared instances)", "2.1", "AttackPattern", {"name": "n", "kill_chain_phases": [ph, ph], "external_references": [ref, ref, ref2]}))
+    out.append(("2.0 tool(shared instances)", "2.0", "Tool", {"name": "n", "labels": ["remote-access"], "kill_chain_phases": [ph, ph], "external_references": [ref2, ref]}))
+    out.append(("2.1 language-content(shared dictionary)", "2.1", "LanguageContent", {"object_ref": O.REF["campaign"], "object_modified": "2020-01-01T00:00:00.000Z",
+                                                                                      "contents": {"en-gb": txt, "en-us": txt, "fr": {"name": "m"}}}))
+    out.append(("2.1 identity(shared custom containers)", "2.1", "Identity", {"name": "n", "allow_custom": True, "x_a": shared_list, "x_b": shared_list, "x_c": {"p": shared_list, "q": txt, "r": txt}}))
+    out.append(("2.1 email-message(shared header lists)", "2.1", "EmailMessage", {"is_multipart": False, "additional_header_fields": {"x-one": shared_list, "x-two": shared_list}}))
     # a list longer than ten elements (index order is not string order) on a versionable object
     out.append(("2.1 identity(long list)", "2.1", "Identity", {"name": "n", "labels": ["l%d" % (i % 5) for i in range(13)], "sectors": ["aerospace"] * 11}))
     return out
